@@ -291,7 +291,12 @@ pub fn run(_params: &Params) {
   let mut issued: Vec<Issued> = Vec::new();
   let mut old_kbs: Vec<String> = Vec::new();
   let mut nontrivial = false;
-  let rounds = 2 + ctx::choose(5);
+  let rounds = if ctx::chance(1, 50) {
+    ctx::stat("probe.long_history");
+    12 + ctx::choose(12)
+  } else {
+    2 + ctx::choose(5)
+  };
   for round in 0..rounds {
     clock.advance(120);
     // ---- issue ----
